@@ -168,6 +168,7 @@ func runC19(t *testing.T, s C19Scenario) (res Result) {
 				return false
 			}
 			var first *vh.Header
+			var newLast uint64
 			for i, h := range results {
 				if errs[i] != nil {
 					if ex.kind != "init" {
@@ -192,15 +193,31 @@ func runC19(t *testing.T, s C19Scenario) (res Result) {
 					res.failf("%s: Head() returned height %d after %d had been returned", tag, h.H, lastReturned)
 					return false
 				}
+				// fresh: with honest trusted peers holding a recent head, every caller gets a recent header - its
+				// own recent subjective head, or what the (shared) request produced - never the stale one that
+				// made the request necessary
+				var hdelay time.Duration
+				e.getter.set(func() { hdelay = e.getter.HeadDelay })
+				if tipHdr := chain.At(e.getter.Tip()); mode == "" && hdelay < hsync.NetworkHeadRequestTimeout/2 && !time.Now().After(tipHdr.Time().Add(3*c19Delta)) &&
+					time.Now().After(h.Time().Add(3*c19Delta)) {
+					res.failf("%s: Head() returned the non-recent header %d although the trusted peers hold the recent head %d", tag, h.H, tipHdr.H)
+					return false
+				}
 				if first == nil {
 					first = h
-				} else if !vh.Equal(first, h) {
+				} else if !vh.Equal(first, h) && (overlapping || s.Span == 0) {
+					// callers of one shared request get one result. With an instantaneous getter the callers do not
+					// overlap in a request, and with a bounded trust span the first one's bifurcation moves the
+					// subjective head up in steps, which a later caller may legitimately see (and return, if recent)
 					res.failf("%s: concurrent Head() callers received different heads (%d and %d)", tag, first.H, h.H)
 					return false
 				}
+				if h.H > newLast {
+					newLast = h.H
+				}
 			}
-			if first != nil {
-				lastReturned = first.H
+			if newLast > lastReturned {
+				lastReturned = newLast
 			}
 			if ex.kind == "init" && mode == "expired" {
 				for i := range results {
@@ -282,7 +299,23 @@ func runC19(t *testing.T, s C19Scenario) (res Result) {
 				if !started {
 					wg.Wait()
 					err := e.startSyncer(ctx)
-					if err != nil && ex.kind == "init" && (mode == "expired" || mode == "error") {
+					// what the trusted peers offer may itself be expired: an old header in "stale" mode, or the
+					// last header of the (finite) chain after a very long sleep - refusing it is the stated behaviour
+					offeredExpired := false
+					if mode == "" || mode == "stale" {
+						off := e.getter.Tip()
+						if mode == "stale" {
+							var st uint64
+							e.getter.set(func() { st = e.getter.HeadStale })
+							if off > st {
+								off -= st
+							} else {
+								off = 1
+							}
+						}
+						offeredExpired = time.Now().After(chain.At(off).Time().Add(c19Trusting))
+					}
+					if err != nil && ex.kind == "init" && (mode == "expired" || mode == "error" || offeredExpired) {
 						// legitimate refusal; the Syncer did not start. Nothing may have been adopted.
 						if mode == "expired" {
 							expiredRefused++
